@@ -1,8 +1,24 @@
 /*
- * blkmap64_rb.c — BOUNDED units (level B(n): trees of at most n extents before the operation; never counted as proved).
- * Harness-level obligations only (the operations free and allocate tree nodes; a DFCC frame for that is not
- * expressible without quantifiers), see rb_common.h for the tree builder, well_formed, the colour invariants and the
- * set view.  lib/ext2fs/rbtree.c (the real rebalancing code) is linked as a second translation unit.
+ * blkmap64_rb.c + rbtree.c — C16, red-black-tree backend.  BOUNDED units (level B(n): trees of n extents before the
+ * operation; never counted as proved).  Harness-level obligations only (the operations free and allocate tree nodes; a
+ * DFCC frame for that is not expressible without quantifiers); see rb_common.h for the tree builder, well_formed, the
+ * colour invariants, the set view and the "never called" contracts.  lib/ext2fs/rbtree.c — the real rebalancing code —
+ * is linked as a second translation unit in every unit.
+ *
+ * Why the units look the way they do (measured with CBMC 6.11, see the report of agent rb):
+ *  - rbtree.h keeps parent pointer and colour in one integer.  CBMC's points-to analysis drops the offset of a pointer
+ *    that went through `& ~3`, so every store through ext2fs_rb_parent(x) becomes a byte_update at a symbolic offset
+ *    on every candidate node (~3*10^5 clauses each).  Queries (no stores) scale to 4 extents; a formula with more
+ *    than three or four inlined ext2fs_rb_erase bodies exceeds 10 GB.
+ *  - Mutating operations are therefore checked per SCENARIO (conditions on the inputs that partition the input space of
+ *    the operation).  A tree mutator that cannot be reached in a scenario is listed under "replace" with the contract
+ *    REQUIRES(false): its unreachability is a checked obligation at every call site, nothing is assumed about it.
+ *    Where it can be reached it is the real code.  ext2fs_rb_erase / ext2fs_rb_insert_color themselves are checked on
+ *    every red-black tree of up to 4 nodes (rbtree_erase_b*, rbtree_insert_b*).
+ *  - n is a compile-time constant of the unit (queries: symbolic 0..n); offsets are capped at 2^16 in the mutating units
+ *    (the final UNSAT call — ordering lemmas over 64-bit comparisons — is the bottleneck, not the formula size).
+ *  - back end: minisat (incremental; kissat/cadical need 5-10 times longer here), hence "no_cross_check".
+ * The VERIF-UNIT blocks below are generated from one table (same knobs for every unit); edit them by hand if needed.
  */
 /* VERIF-UNIT
 {
